@@ -4,6 +4,7 @@ import (
 	"bytes"
 	"github.com/brutella/hc/crypto"
 	"github.com/brutella/hc/log"
+	"github.com/brutella/hc/verifhook"
 	"net"
 	"time"
 
@@ -55,6 +56,7 @@ func (con *Connection) EncryptedWrite(b []byte) (int, error) {
 	}
 
 	encryptedBytes, err := ioutil.ReadAll(encrypted)
+	verifhook.At("conn.write.sealed")
 	n, err := con.connection.Write(encryptedBytes)
 
 	return n, err
@@ -91,6 +93,8 @@ func (con *Connection) DecryptedRead(b []byte) (int, error) {
 // Write writes bytes to the connection.
 // The written bytes are encrypted when possible.
 func (con *Connection) Write(b []byte) (int, error) {
+	verifhook.At("conn.write.enter")
+	defer verifhook.At("conn.write.done")
 	if con.getEncrypter() != nil {
 		return con.EncryptedWrite(b)
 	}
@@ -100,6 +104,7 @@ func (con *Connection) Write(b []byte) (int, error) {
 
 // Read reads bytes from the connection. The read bytes are decrypted when possible.
 func (con *Connection) Read(b []byte) (int, error) {
+	verifhook.At("conn.read.enter")
 	if con.getDecrypter() != nil {
 		return con.DecryptedRead(b)
 	}
